@@ -29,7 +29,7 @@ ASSUMPTIONS = [
 ]
 
 SCHEMA = {
-    "m": [("api", 9), ("mt", 3), ("fs", progs.N_FS)],
+    "m": [("api", 9), ("mt", 3), ("fs", progs.N_FS), ("rf", 2)],
     "a": [
         ("style", 10),
         ("typed", 2),
@@ -38,6 +38,7 @@ SCHEMA = {
         ("sf", progs.N_FS),
         ("ef", progs.N_FS),
         ("xf", 3),
+        ("rf", 2),
     ],
 }
 
